@@ -2,7 +2,7 @@
 fail-closed; a generator that raises leaves a stub that does not compile, so dependent obligations break."""
 import os, sys, importlib
 from common import *
-GENERATORS = ['dump_x86', 'dump_asm', 'dump_ppc', 'dump_lift']   # (module name, output file) — filled as dumps are added
+GENERATORS = ['dump_x86', 'dump_asm', 'dump_att', 'dump_ppc', 'dump_lift']   # (module name, output file) — filled as dumps are added
 def generate(name, verbose=False):
     mod = importlib.import_module(name)
     return mod.generate(verbose=verbose)
